@@ -106,7 +106,7 @@ C19_SCENARIOS = [
 def c19_csv(repo: str, verif: str, tier: str) -> dict:
     t0 = time.time()
     target = "alpha-g-trg-scalers and alpha-g-vertices (real binaries) on synthetic MIDAS files"
-    bound = f"{len(C19_SCENARIOS)} timestamp scenarios x 2 binaries, events split over 1 and 2 files given in both command-line orders, non-main events interleaved"
+    bound = f"{len(C19_SCENARIOS)} timestamp scenarios x 2 binaries, events split over 1 and 2 files given in both command-line orders, non-main events interleaved; for the reversed two-file order also RAYON_NUM_THREADS in {{1, 2, 5, 16}} with byte-identical data rows"
     bins, err = build(repo, verif, ["alpha-g-trg-scalers", "alpha-g-vertices"])
     if bins is None:
         return {"name": "c19_csv", "status": "undecided", "reason": "analysis binaries do not build: " + err, "target": target, "bound": bound}
@@ -149,6 +149,21 @@ def c19_csv(repo: str, verif: str, tier: str) -> dict:
                                     return _fail("c19_csv", target, bound, cases, f"{what}: undecodable event {serial} has trg_time {got}", t0)
                             elif got == "" or abs(float(got) - x) > 1e-9 * max(1.0, x):
                                 return _fail("c19_csv", target, bound, cases, f"{what}: event {serial} trg_time {got!r}, expected {x!r} (timestamps {seq})", t0)
+                        # the data rows are byte-identical for every worker-thread count (the `#` header echoes the command line)
+                        if nfiles == 2 and order is not paths:
+                            ref = None
+                            for nt in ("1", "2", "5", "16"):
+                                out = os.path.join(work, f"out_t{nt}.csv")
+                                cases += 1
+                                r = subprocess.run([bins[b]] + order + ["--output", out], capture_output=True, text=True, timeout=600,
+                                                   env=dict(os.environ, RAYON_NUM_THREADS=nt))
+                                if r.returncode != 0 or not os.path.exists(out):
+                                    return _fail("c19_csv", target, bound, cases, f"{what}: binary failed with RAYON_NUM_THREADS={nt}: {r.stderr[-200:]}", t0)
+                                body = b"\n".join(l for l in open(out, "rb").read().split(b"\n") if not l.startswith(b"#"))
+                                if ref is None:
+                                    ref = body
+                                elif body != ref:
+                                    return _fail("c19_csv", target, bound, cases, f"{what}: output with RAYON_NUM_THREADS={nt} differs from the output with 1 thread", t0)
     finally:
         shutil.rmtree(work, ignore_errors=True)
     return {"name": "c19_csv", "status": "bounded-ok", "target": target, "bound": bound, "cases": cases, "distinct": cases, "time_s": round(time.time() - t0, 1)}
